@@ -13,6 +13,31 @@ CHECKS = {
             "Every tuple in the stated box is run end to end through ladim.main and compared with the predicted file names, per-file record counts and record times, and the split run with the unsplit run. Complete inside the box (quick: nsteps<=9, period<=3, numrec<=3; thorough: 14/5/4), nothing outside it.",
             "Constant velocity, two particles, dt=60 s; netCDF4 is trusted to read back what was written.",
             "DESIGN.md section 3 C07"),
+    "C03": ("exploration",
+            "Hypothesis-generated frame/file layouts; per-step differential against an independent 'lerp between bracketing frames' reference at static probes",
+            "Frame layouts (gaps 1..12 steps incl. all-equal-to-dt, irregular), every kind of partition into files, start offsets, run lengths, both directions, 0-2 scalar fields, f4/f8 are generated; Forcing is driven step by step exactly as Model.update orders the calls, and velocity (also 0.5 and 1.0 step ahead) and scalars are compared with the reference after every step. Exploration: finds layout-dependent hand-over errors, proves nothing beyond the cases run.",
+            "Reference interpolator in vlib/roms.py written from the property text; tolerance (maxgap+4)*4*eps; reversed runs accept either bracketing frame for scalars between frame steps.",
+            "DESIGN.md section 3 C03"),
+    "C05": ("exploration",
+            "exhaustive enumeration of operation sequences up to a bound + Hypothesis-generated longer sequences against a list-of-records model; pid laws on output records of generated end-to-end runs",
+            "All sequences up to length 5 (quick) / 7 (thorough) over a 10-operation alphabet on ladim.state.State are compared with a reference model after every operation (complete within that bound); longer parametrised sequences are generated; generated end-to-end runs are read back and every record checked for strictly increasing pid and pid[k] >= k.",
+            "Assigned arrays respect State's size contract (same length); the model is the reading of the property text in checks/c05.py.",
+            "DESIGN.md section 3 C05"),
+    "C06": ("exploration",
+            "Hypothesis-generated end-to-end histories; round-trip oracle: state snapshot taken by a recording output plug-in at write time vs file read back by the documented recipe",
+            "Generated simulations (multi-file forcing, release tables incl. continuous, scripted kills, lifetimes, out-of-grid flow, time-typed and other particle variables, sparse/dense, numrec, reference times, f4/f8) are run through ladim.main; every record of every file is compared with the snapshot taken when it was written, the count/time/particle-variable structure is checked, dense files must be filled exactly where a pid is not alive.",
+            "The snapshot is taken in a subclass of the stock Output immediately before delegating to it; netCDF4 is trusted for reading.",
+            "DESIGN.md section 3 C06"),
+    "C12": ("exploration",
+            "Hypothesis-generated vertical set-ups and depths checked against validity predicates (monotone, bounded, interleaved) and the clamped-interpolation identity",
+            "s_stretch, sdepth, z2s and Grid.z_r/z_w (from file and from Vinfo) are evaluated on generated N, stretching parameters, transforms, hc, bathymetries and depths incl. exactly on levels and outside the range.",
+            "theta parameters >= 1e-3 (see DESIGN C12); tolerances 1e-12 (stretching end points) and 1e-9*h.",
+            "DESIGN.md section 3 C12"),
+    "C13": ("exploration",
+            "Hypothesis-generated clocks and period spellings against integer-second reference arithmetic; malformed spellings must raise ValueError",
+            "TimeKeeper is constructed from generated start/stop/reference/dt spellings in both directions and stepped; running clock, step<->time conversions at generated (also negative) steps, CF time values and units are compared with integer arithmetic; every spelling of a period must normalise to the same duration; malformed ones must be rejected.",
+            "Units s, m, h (as documented for step2nctime).",
+            "DESIGN.md section 3 C13"),
 }
 
 def main():
